@@ -365,6 +365,66 @@ var scaleCases = []*ScaleCase{
 	{"x.f().", "", "g()", ""}, {"1 ? 2 : ", "", "3", ""}, {"true ? ", " : 0", "1", ""}, {"- -", "", "1", ""}, {"not ", "", "true", ""},
 }
 
+// ---- sources at the VM's encoding capacities, through the public API: whatever Compile
+// decides (a Callable or an error), every call returns; a call that does not return is
+// caught by the per-case watchdog and reported as a violation of C12 by the driver.
+
+type CapacityCase struct {
+	Kind string `json:"kind"`
+	N    int    `json:"n"`
+	Sel  bool   `json:"sel,omitempty"`
+}
+
+func checkCapacity(c *CapacityCase) *Outcome {
+	src := m.Print(gen.StressFixed(c.Kind, c.N, c.Sel), m.PrintOpt{})
+	desc := fmt.Sprintf("stress program %s n=%d sel=%v (%d bytes of source)", c.Kind, c.N, c.Sel, len(src))
+	accepted := false
+	for _, closureBE := range []bool{false, true} {
+		e := yae.NewExpr()
+		if closureBE {
+			e.UseClosureCompiler()
+		}
+		var callable yae.Callable
+		var cerr error
+		if p := run.Guard(func() { callable, cerr = e.Compile(src, nil) }); p != nil {
+			return bad("Compile panicked instead of returning an error: %s (%s)", p.Text, desc)
+		}
+		if cerr != nil {
+			continue
+		}
+		accepted = true
+		for i := 0; i < 2; i++ {
+			var v *val.Val
+			var err error
+			t0 := time.Now()
+			if p := run.Guard(func() { v, err = callable(nil) }); p != nil {
+				return bad("the Callable panicked instead of returning an error: %s (%s)", p.Text, desc)
+			}
+			if err == nil && v == nil {
+				return bad("the Callable returned neither a value nor an error (%s)", desc)
+			}
+			if d := time.Since(t0); d > 30*time.Second {
+				return bad("not prompt: evaluating the compiled expression took %s (%s)", d, desc)
+			}
+		}
+	}
+	return ok(accepted, "capacity-source:"+c.Kind, fmt.Sprintf("capacity-source-accepted:%v", accepted))
+}
+
+var c12capacity = Register(&Prop[CapacityCase]{ID: "C12", Name: "capacity-sources", Check: checkCapacity})
+
+func capacityCases() []*CapacityCase {
+	cs := []*CapacityCase{
+		{Kind: "long-arms", N: 5457, Sel: false}, {Kind: "long-arms", N: 5458, Sel: true},
+	}
+	if Tier == "thorough" {
+		cs = append(cs, &CapacityCase{Kind: "long-arms", N: 5400}, &CapacityCase{Kind: "long-arms", N: 5470}, &CapacityCase{Kind: "long-arms", N: 8000, Sel: true},
+			&CapacityCase{Kind: "long-arms", N: 11000}, &CapacityCase{Kind: "wide-list", N: 22000}, &CapacityCase{Kind: "deep-right", N: 1500}, &CapacityCase{Kind: "nested-logic", N: 1500},
+			&CapacityCase{Kind: "nested-thunks", N: 1000}, &CapacityCase{Kind: "wide-obj", N: 8000}, &CapacityCase{Kind: "wide-map", N: 8000})
+	}
+	return cs
+}
+
 // ---- scaling of evaluation (and of the whole compile pipeline incl. type checker and code
 // generation) against nesting depth, per back end, over closed programs that are accepted
 
@@ -511,12 +571,19 @@ var evalScaleCases = []*EvalScaleCase{
 }
 
 func TestC12(t *testing.T) {
-	R.Rule = "source strings up to 256 bytes (quick) / 4 KiB (thorough): random bytes, random runes, token soup from the lexicon, grammar-aware edits (insert / delete / duplicate / swap) of valid programs taken from a seed list and from the program generator, bracket nests to depth 12, valid programs; environments: none, Go host values built by reflection (structs, maps, slices, pointers, interface parts, nil parts, unsupported kinds), or one of the fixed hostile host values (cyclic maps / slices / struct rings, self-referential pointers, recursive Go types with nil links, nesting beyond conv's limit, typed nils, unsupported kinds), also as run-time environment of a Callable compiled against something else; every call of Eval, Compile (two back ends), the Callable (same environment, a mismatching map, nil, a number, an unsupported struct) and Debug must return without panicking, with a value or an error, within 5 s (a slower call is repeated three times and reported only if slow every time; a call that does not return within 180 s aborts the run as a violation); scaling class: compile time against repetition count 2..60 for 45 nest, chain and prefix shapes must not grow by more than 2.5x per two levels over four consecutive steps from depth 12 on (or 1.7x over five steps from depth 30 on); eval-scaling class: 60 closed accepted shapes (nested / chained conditionals, short-circuit operators, user lazy functions, defaults, strict and host calls, literals, selectors, method notation) compiled and evaluated on each of the four back ends at repetition counts 2..60, compile time (whole pipeline) and evaluation time under the same growth rule; non-trivial = input accepted, or rejected with more than one token"
+	R.Rule = "source strings up to 256 bytes (quick) / 4 KiB (thorough): random bytes, random runes, token soup from the lexicon, grammar-aware edits (insert / delete / duplicate / swap) of valid programs taken from a seed list and from the program generator, bracket nests to depth 12, valid programs; environments: none, Go host values built by reflection (structs, maps, slices, pointers, interface parts, nil parts, unsupported kinds), or one of the fixed hostile host values (cyclic maps / slices / struct rings, self-referential pointers, recursive Go types with nil links, nesting beyond conv's limit, typed nils, unsupported kinds), also as run-time environment of a Callable compiled against something else; every call of Eval, Compile (two back ends), the Callable (same environment, a mismatching map, nil, a number, an unsupported struct) and Debug must return without panicking, with a value or an error, within 5 s (a slower call is repeated three times and reported only if slow every time; a call that does not return within 180 s aborts the run as a violation); scaling class: compile time against repetition count 2..60 for 45 nest, chain and prefix shapes must not grow by more than 2.5x per two levels over four consecutive steps from depth 12 on (or 1.7x over five steps from depth 30 on); eval-scaling class: 60 closed accepted shapes (nested / chained conditionals, short-circuit operators, user lazy functions, defaults, strict and host calls, literals, selectors, method notation) compiled and evaluated on each of the four back ends at repetition counts 2..60, compile time (whole pipeline) and evaluation time under the same growth rule; capacity class: sources of 60-100 KB at the VM's encoding limits (conditionals whose code crosses the 16-bit jump range; thorough: further wide / deep shapes) compiled and invoked twice through the public API on both facade back ends; non-trivial = input accepted, or rejected with more than one token"
 	R.Assume = []string{"termination is only observed under the stated budgets; Go stack exhaustion by inputs beyond 4 KiB is not probed"}
 	reportKnown(t, "C12")
 	runRegress(t, "C12")
 	c12scale.Each(t, "nest-shapes", func(yield func(*ScaleCase) bool) {
 		for _, c := range scaleCases {
+			if !yield(c) {
+				return
+			}
+		}
+	})
+	c12capacity.Each(t, "capacity-sources", func(yield func(*CapacityCase) bool) {
+		for _, c := range capacityCases() {
 			if !yield(c) {
 				return
 			}
